@@ -401,9 +401,17 @@ type planReader struct {
 	// eofWithData makes the final chunk come back together with io.EOF (as io.Reader permits and
 	// e.g. HTTP bodies with Content-Length or iotest.DataErrReader do) instead of a separate (0, EOF).
 	eofWithData bool
+	// zeroEvery > 0 makes every zeroEvery-th Read return (0, nil) before any data (io.Reader
+	// permits it; e.g. a pipe whose peer flushed with an empty write); the first Read is one of them.
+	zeroEvery int
+	calls     int
 }
 
 func (r *planReader) Read(p []byte) (int, error) {
+	r.calls++
+	if r.zeroEvery > 0 && (r.calls-1)%r.zeroEvery == 0 && r.calls < 4*r.zeroEvery+2 {
+		return 0, nil
+	}
 	for r.idx < len(r.sizes) && r.sizes[r.idx] == 0 {
 		r.idx++
 	}
@@ -438,14 +446,21 @@ func (s *sink) Write(p []byte) (int, error) {
 
 // writeAll sends data through c in the planned write sizes using the given path and then
 // closes the write side.
-func writeAll(c netio.Conn, data []byte, sizes []int, path int, eofWithData bool) error {
+func writeAll(c netio.Conn, data []byte, sizes []int, path int, eofWithData bool, zeroEvery int) (err error) {
+	// always end the direction, also after an error, so that a concurrently running reader of a
+	// duplex plan terminates and the first failure is reported instead of a watchdog timeout
+	defer func() {
+		if err != nil {
+			c.CloseWrite()
+		}
+	}()
 	switch path {
 	case pathRF:
 		rf, ok := c.(io.ReaderFrom)
 		if !ok {
 			return errors.New("conn has no ReadFrom")
 		}
-		pr := &planReader{data: data, sizes: append([]int(nil), sizes...), eofWithData: eofWithData}
+		pr := &planReader{data: data, sizes: append([]int(nil), sizes...), eofWithData: eofWithData, zeroEvery: zeroEvery}
 		n, err := rf.ReadFrom(pr)
 		if err != nil {
 			return fmt.Errorf("ReadFrom: %w", err)
